@@ -47,3 +47,46 @@ theorem idx0_bounds (s : Bytes) : -1 ≤ idx0 s ∧ idx0 s < len s := by
 theorem idx0_eps : idx0 eps = -1 := by simp [idx0, eps]
 
 end T0
+
+namespace T0
+
+/-! Second batch: `at` (named byteAt here, `at` is a Lean keyword), `idx0` over `cat`, `zeros`. -/
+
+def byteAt (s : Bytes) (i : Int) : Int := if h : 0 ≤ i ∧ i.toNat < s.length then (s.get ⟨i.toNat, h.2⟩ : Nat) else 0
+
+theorem at_range (s : Bytes) (i : Int) : 0 ≤ byteAt s i ∧ byteAt s i < 256 := by
+  unfold byteAt
+  split
+  · constructor
+    · exact Int.natCast_nonneg _
+    · exact_mod_cast (s.get _).isLt
+  · constructor <;> norm_num
+
+theorem idx0_zeros (n : Int) : idx0 (zeros n) = if 0 < n then 0 else -1 := by
+  unfold idx0 zeros
+  rcases Nat.eq_zero_or_pos n.toNat with h | h
+  · have : ¬ 0 < n := by omega
+    simp [h, this]
+  · have hn : 0 < n := by omega
+    have : List.findIdx (fun x => decide (x = (0 : Byte))) (List.replicate n.toNat 0) = 0 := by
+      cases hk : n.toNat with
+      | zero => omega
+      | succ k => simp [List.replicate_succ, List.findIdx_cons]
+    simp [this, h, hn]
+
+theorem idx0_cat (a b : Bytes) :
+    idx0 (cat a b) = if 0 ≤ idx0 a then idx0 a else (if 0 ≤ idx0 b then len a + idx0 b else -1) := by
+  unfold idx0 cat len
+  by_cases ha : List.findIdx (fun x => decide (x = (0 : Byte))) a < a.length
+  · have h1 : List.findIdx (fun x => decide (x = (0 : Byte))) (a ++ b) = List.findIdx (fun x => decide (x = (0 : Byte))) a := by
+      rw [List.findIdx_append]; simp [ha]
+    simp [h1, ha, List.length_append]
+    omega
+  · have h1 : List.findIdx (fun x => decide (x = (0 : Byte))) (a ++ b) = a.length + List.findIdx (fun x => decide (x = (0 : Byte))) b := by
+      rw [List.findIdx_append]; simp [ha]; omega
+    simp only [h1, ha, List.length_append, if_false]
+    by_cases hb : List.findIdx (fun x => decide (x = (0 : Byte))) b < b.length
+    · simp [hb]
+    · simp [hb]
+
+end T0
